@@ -13,6 +13,19 @@ CLAIMED = {
         'Control flow of decode.c is modelled by hand and tied only by correspondence.',
    technique='Coq proof (induction over the input, finite sweeps lifted by forallb_forall) + extracted-model differential correspondence',
    ref='DESIGN 6 C16'),
+ 'C06': dict(
+   text='Coq theorems: the dry-run printer and the executor are functions of the same interpolated match list; the "message -> destination" lines are exactly the executed '
+        'actions in order, a message without action prints nothing, every recorded non-empty match of every matcher in front of an action is printed (two lines each); for a '
+        'match inside one line the quoted line is the line containing it (leading blanks removed, never beyond the match), ^ stands in the display column where the match '
+        'begins and $ in its last column, for every character decoder that decodes the characters of the line independently of what follows (instantiated for the C and '
+        'UTF-8 decoders on ASCII / 8-bit / multibyte classes). Tied by -d runs on generated populations with ground truth (decoded header values, decoded bodies): an '
+        'independent monitor (platform regexec, own width function) judges truth and completeness of every explanation, the extracted model is compared line by line, '
+        'and a real run on the same tree must do exactly what the -d lines announce (places, labels, added headers, discards, commands; unlisted messages untouched). '
+        'Defect F-08 (marker far right when the match begins inside the stripped leading blanks) repaired by a fix: commit.',
+   note='Matches one column wide print ^$ (markers cannot share a column); matches spanning a newline cannot be shown by a one-line quote and are skipped (counted in evidence). '
+        'wcwidth is modelled by classes, checked against the platform only through the generated characters.',
+   technique='Coq proof (character-segmentation lemma for strnwidth, line-start invariant, induction over the match list) + differential -d / real runs with a ground-truth monitor',
+   ref='DESIGN 6 C06'),
  'C07': dict(
    text='Coq theorems (partial), each for every byte string: (1) totality - header parsing, boundary scanning, the part loop, recursive flattening with the depth limit, '
         'body selection, RFC 2047 decoding and the interpolation scanner never exhaust the fuel they are started with; (2) bounds - index-level models of findheader, '
